@@ -423,6 +423,14 @@ fn encrypt(w: &mut World, op: &Value) -> R<Value> {
     let in_domain = refpk.is_some() && !msg.is_empty();
     let site = if asn1 { "sm2.encrypt_asn1" } else { "sm2.encrypt" };
     let prop = if asn1 { "C19" } else { "C05" };
+    if via == "inf" && !msg.is_empty() {
+        // GB/T 32918.4 step A3: S = [h]P_B is the point at infinity -> report an error. A key struct
+        // holding infinity can be handed over by any caller (the field is public).
+        w.check_class(&["C20"], site, &class, "public key = point at infinity", case, "");
+        let key = json!({"entry":site,"class":"public key = point at infinity","outcome":class.as_str()});
+        w.check("C05", "O5.6-infinity-key-refused", class != Class::Ok, case, key, || format!("{site} returned a ciphertext for the point at infinity as public key (step A3 demands an error)"));
+        w.bump("probe.sm2.encrypt.infinity-key");
+    }
     if in_domain {
         hang_check(w, site, &class, &log, case);
         // C20 termination clause: encrypting with any accepted key terminates
